@@ -42,6 +42,32 @@ type Case struct {
 	FailAccept bool `json:"failAccept,omitempty"`
 	failAt     int
 	Picks []int `json:"picks,omitempty"`
+	// Spelling: how the second command line names the same file: 0 as the first
+	// did, 1 doubled slash, 2 "/./", 3 "x/../", 4 relative to the working directory
+	Spelling int `json:"spelling,omitempty"`
+	// Backdate: when the second is issued against an answering first run, every
+	// history file is made to look 25 hours old (the DAG keeps history for one
+	// day): a start that is refused must not prune the active run's record either
+	Backdate bool `json:"backdate,omitempty"`
+}
+
+func (w *world) spelled(c *Case) (path, cwd string) {
+	dir, base := filepath.Dir(w.file), filepath.Base(w.file)
+	switch c.Spelling {
+	case 1:
+		return dir + "//" + base, w.h.Dir
+	case 2:
+		return dir + "/./" + base, w.h.Dir
+	case 3:
+		os.MkdirAll(filepath.Join(dir, "x"), 0o755)
+		return dir + "/x/../" + base, w.h.Dir
+	case 4:
+		rel, err := filepath.Rel(w.h.Dir, w.file)
+		if err == nil {
+			return rel, w.h.Dir
+		}
+	}
+	return w.file, w.h.Dir
 }
 
 type snapT struct {
@@ -59,6 +85,7 @@ type reportT struct {
 	SecondOut  string `json:"secondOut"`
 	SecondMS   int64  `json:"secondMS"`
 	TimedOut   bool   `json:"timedOut"`
+	Backdated  bool   `json:"backdated"`
 }
 
 func cliEnv(h *agentkit.Home) []string {
@@ -87,7 +114,7 @@ func newWorld(t rep.Fataler) *world {
 		}
 		return s
 	}
-	y := "steps:\n" + step("s1", "") + step("s2", "s1") + fmt.Sprintf("handlerOn:\n  exit:\n    command: sh -c \"echo onExit >> %s\"\n", w.marker)
+	y := "histRetentionDays: 1\nsteps:\n" + step("s1", "") + step("s2", "s1") + fmt.Sprintf("handlerOn:\n  exit:\n    command: sh -c \"echo onExit >> %s\"\n", w.marker)
 	w.file, _ = h.WriteDAG("solo", y)
 	// an earlier finished run (the target of `retry`, and prior history)
 	cmd := exec.Command(bin, "start", "-q", w.file)
@@ -122,7 +149,12 @@ func (w *world) supervise(c *Case, k int, wantLog bool) (*crashkit.Result, *repo
 	}
 	if k > 0 {
 		o.HoldAt = k
-		o.HoldCmd = strings.Join([]string{os.Getenv("VERIF_TOOL_SECOND"), report, w.h.Data, w.marker, w.file, bin, mode, w.priorID}, " ")
+		sp, cwd := w.spelled(c)
+		bd := "keep"
+		if c.Backdate {
+			bd = "backdate"
+		}
+		o.HoldCmd = strings.Join([]string{os.Getenv("VERIF_TOOL_SECOND"), report, w.h.Data, w.marker, w.file, bin, mode, w.priorID, sp, cwd, bd}, " ")
 	}
 	r, err := crashkit.Run(w.h.Dir, o, bin, "start", "-q", w.file)
 	if err != nil {
@@ -254,7 +286,16 @@ func check(t rep.Fataler, c Case) {
 				if r.Exit != 0 {
 					fail("the first run was disturbed: it exited %d", r.Exit)
 				}
-				if len(runs) != 2 {
+				if rp.Backdated {
+					// every record looked a day old when the second was issued: the prior
+					// run may be pruned by anyone, the ACTIVE run's record by no one
+					if len(runs) == 0 || runs[0].Status.RequestID == w.priorID {
+						fail("the record of the active run is gone after a refused second %s that was issued when the record had not been written to for 25 hours (history now holds %d run(s))", mode(c), len(runs))
+					}
+					if len(runs) > 2 {
+						fail("history has %d runs, expected at most the prior run and the first start's run", len(runs))
+					}
+				} else if len(runs) != 2 {
 					fail("history has %d runs, expected the prior run and the first start's run only", len(runs))
 				}
 				if len(runs) > 0 && runs[0].Status.Status != dagscheduler.StatusSuccess {
@@ -305,12 +346,16 @@ func check(t rep.Fataler, c Case) {
 				}
 			}
 			_ = secondLines
-			key := rep.Hash(map[string]any{"k": k, "retry": c.Retry})
+			key := rep.Hash(map[string]any{"k": k, "retry": c.Retry, "spelling": c.Spelling, "backdate": c.Backdate})
 			faultLabel := "accept-fault:none"
 			if c.FailAccept {
 				faultLabel = "accept-fault:EMFILE-once"
 			}
-			rep.Eval(key, "phase:"+phase, "syscall:"+call.Name, fmt.Sprintf("second-exit:%d", min(rp.SecondExit, 1)), faultLabel)
+			lbl := []string{"phase:" + phase, "syscall:" + call.Name, fmt.Sprintf("second-exit:%d", min(rp.SecondExit, 1)), faultLabel, fmt.Sprintf("second-path-spelling:%d", c.Spelling)}
+			if rp.Backdated {
+				lbl = append(lbl, "active-record-looks-a-day-old")
+			}
+			rep.Eval(key, lbl...)
 			if rep.WantSample() {
 				rep.Sample(map[string]any{"heldAt": what, "phase": phase, "secondExit": rp.SecondExit, "finalMarkerLines": finalLines, "runsRecorded": len(runs)})
 			}
@@ -339,7 +384,8 @@ func TestProp(t *testing.T) {
 		}
 	}
 	rapid.Check(t, func(t *rapid.T) {
-		c := Case{Retry: rapid.IntRange(0, 2).Draw(t, "retry") == 0, FailAccept: rapid.IntRange(0, 3).Draw(t, "failAccept") == 0}
+		c := Case{Retry: rapid.IntRange(0, 2).Draw(t, "retry") == 0, FailAccept: rapid.IntRange(0, 3).Draw(t, "failAccept") == 0,
+			Spelling: rapid.SampledFrom([]int{0, 1, 2, 3, 4}).Draw(t, "spelling"), Backdate: rapid.Bool().Draw(t, "backdate")}
 		for i := 0; i < 2; i++ {
 			c.Picks = append(c.Picks, rapid.IntRange(0, 99999).Draw(t, "pick"))
 		}
